@@ -2,31 +2,32 @@
 # Detection demonstration: revert each 'fix:' commit of /repo in the working tree (never committed),
 # run the quick check(s) of the property it repaired and expect exit 1 with a VIOLATION line.
 # usage: tools/regress.sh [sha-prefix ...]      (no args = all)
-cd /verif
+V="$(cd "$(dirname "$0")/.." && pwd)"; REPO="${REPO:-/repo}"; cd "$V"
 declare -A MAP=(
  [07595b6]="C08" [16f2077]="C09" [99c00b8]="C10" [24a77d0]="C11 C10" [ccc9172]="C07"
  [bea700b]="C01 C13" [caaaab3]="C15" [edc01e8]="C13" [8c4da29]="C02 C13" [6f67584]="C03"
  [0aaf55e]="C03 C16 C04" [3fb1ec3]="C04" [68fff40]="C17" [9d866c7]="C17" [87a22c8]="C11"
  [5b611b1]="C01" [829b70f]="C01" [3c62e99]="C01" [566328c]="C02" [7dbcd8f]="C04" [a5ce105]="C04"
+ [0ab05d5]="C12"
 )
-ORDER="07595b6 16f2077 99c00b8 24a77d0 ccc9172 bea700b caaaab3 edc01e8 8c4da29 6f67584 0aaf55e 3fb1ec3 68fff40 9d866c7 87a22c8 5b611b1 829b70f 3c62e99 566328c 7dbcd8f a5ce105"
+ORDER="07595b6 16f2077 99c00b8 24a77d0 ccc9172 bea700b caaaab3 edc01e8 8c4da29 6f67584 0aaf55e 3fb1ec3 68fff40 9d866c7 87a22c8 5b611b1 829b70f 3c62e99 566328c 7dbcd8f a5ce105 0ab05d5"
 [ $# -gt 0 ] && ORDER="$*"
-if [ -n "$(git -C /repo status --porcelain --untracked-files=no)" ]; then echo "/repo is dirty"; exit 2; fi
-mkdir -p /verif/.build/regress
+if [ -n "$(git -C "$REPO" status --porcelain --untracked-files=no)" ]; then echo "$REPO is dirty"; exit 2; fi
+mkdir -p $V/.build/regress
 for sha in $ORDER; do
   props="${MAP[$sha]}"
-  subj=$(git -C /repo log -1 --format=%s $sha)
-  if ! git -C /repo diff $sha^ $sha | git -C /repo apply -R --3way 2>/verif/.build/regress/$sha.apply.log; then
-     echo "SKIP   $sha (cannot revert cleanly) $subj"; git -C /repo checkout -- . ; git -C /repo reset -q; continue
+  subj=$(git -C "$REPO" log -1 --format=%s $sha)
+  if ! git -C "$REPO" diff $sha^ $sha | git -C "$REPO" apply -R --3way 2>$V/.build/regress/$sha.apply.log; then
+     echo "SKIP   $sha (cannot revert cleanly) $subj"; git -C "$REPO" checkout -- . ; git -C "$REPO" reset -q; continue
   fi
-  git -C /repo reset -q
+  git -C "$REPO" reset -q
   # the repository's own tests must still pass with the defect back in
-  if ( cd /repo && cargo test --offline >/verif/.build/regress/$sha.tests.log 2>&1 ); then tests=pass; else tests=FAIL; fi
+  if ( cd "$REPO" && cargo test --offline >$V/.build/regress/$sha.tests.log 2>&1 ); then tests=pass; else tests=FAIL; fi
   for p in $props; do
-     ./check $p --tier quick >/verif/.build/regress/$sha.$p.log 2>&1; code=$?
-     rule=$(grep -m1 "rule=" /verif/.build/regress/$sha.$p.log | sed 's/^ *//')
+     ./check $p --tier quick >$V/.build/regress/$sha.$p.log 2>&1; code=$?
+     rule=$(grep -m1 "rule=" $V/.build/regress/$sha.$p.log | sed 's/^ *//')
      if [ $code -eq 1 ]; then echo "CAUGHT $sha $p tests=$tests  $rule   # $subj";
      else echo "MISSED $sha $p (exit $code) tests=$tests   # $subj"; fi
   done
-  git -C /repo checkout -- .
+  git -C "$REPO" checkout -- .
 done
